@@ -57,8 +57,9 @@ TRUSTED = [
 ASSUMPTIONS = [
     "keys are declared with add_argument('--a.b.c', type=T) and default None; no subcommands, links, class types or paths",
     "floats within binary64 range with <= 15 significant digits (decimal model of Model/TyVal.v); no NaN/inf settings; integers beyond 2^53 only for types without a float position (float(int) rounds there)",
-    "the model is compared with the observations of parser_mode yaml; json / jsonnet / omegaconf observations are judged "
-    "against the specification (agreement with all other channels) only",
+    "the model is compared with the observations of parser_mode yaml and omegaconf (the latter through what the OmegaConf-based "
+    "loader answered, errors classified by the implementation's own list of loader exceptions); json / jsonnet observations "
+    "are judged against the specification (agreement with all other channels) only",
     "a string is 'unambiguous text' only at a str position; strings below Any, non-strings where str/Any could take the text, "
     "and ${...} strings under omegaconf are outside the property's quantifier (class 5: nothing demanded)",
     "dict settings are generated with sorted keys (jsonnet re-renders objects sorted); sets only of int or str",
@@ -152,7 +153,7 @@ def make_docs(key, v):
 LOOKALIKES = ["true", "false", "null", "True", "NULL", "yes", "no", "on", "off", "~", "1", "-1", "0", "007", "1.5", "1e3", "1E3",
               "1e+3", ".5", "5.", "1_000", "0x1F", "0o17", "0b11", "1:30", ".inf", "-.inf", ".nan", "nan", "inf", "-",
               "-x", "+1", "=", "<<", "a: b", "a:", "[1, 2]", "[a", "{a: 1}", '{"a": 1}', "{a", "a, b", "a b", " lead", "trail ",
-              "", " ", "'q'", '"q"', "a#b", "a #b", "#c", "@x", "`y", "%z", "&a", "*a", "!t", "|", ">", "?", "? a", "- a", "-a",
+              "", " ", "'q'", '"q"', "a#b", "a #b", "#c", "@x", "`y", "%z", "&a", "*a", "!t", "|", ">", "?", "? a", "? x", "{? : 1}", "[? a]", "{?}", "? [a]", "- a", "-a",
               "a\nb", "tab\tx", "été", "☃", "2024-01-01", "12:30:00", "1+1", "${x}", "${oc.env:HOME}", "$x",
               "std.thisFile", "a.b", "a=b", "app=web", "a=b=c", "http://h/q?a=1&b=2", "dGVzdA==", "k=v,x=y", "=x", "x=", "a:b", "x#y",
               "p, q", "key: a=b", "x,y", "None", "none", "NaN", "Infinity", "0.1", "-0", "-0.0", "1 2"]
@@ -502,6 +503,12 @@ def generate(rng, tier):
         for t in (["union", [["str"], ["none"]]], ["list", ["str"]], ["dict", False, ["str"]]):
             v = s if t[0] == "union" else ({"l": [s, "a"]} if t[0] == "list" else {"d": [["k", s]]})
             cases.append(make_case(rng, t, v, modes=["yaml", rng.choice(MODES[1:])] if tier == "quick" else None))
+    # texts PyYAML reads as a mapping / sequence (some of which the OmegaConf loader refuses: ?, {? : 1}): at a str position,
+    # as a Dict[str, str] entry (whole value and entry by entry) and under Any, with an omegaconf-mode parser next to yaml
+    for s in LOOKALIKES:
+        if any(ch in s for ch in "?{[:") and "${" not in s:
+            for t, v in ((["dict", False, ["str"]], {"d": [["k", s]]}), (["str"], s), (["any"], s)):
+                cases.append(make_case(rng, t, v, modes=["yaml", "omegaconf"]))
     for _ in range(n):
         t = finish_type(rng, gen_type(rng, rng.choice([0, 1, 1, 2, 2, 3])))
         v = gen_value(rng, t, 0.85)
@@ -658,10 +665,11 @@ def observations(obs):
         ch = ch.replace("@after", "")
         loaded = obs["loaded"].get(mode + "/" + doc) if doc else None
         nested = ch.startswith("argv_nested")
-        item = (mode == "yaml", CHANNELS[ch], json.dumps(loaded), json.dumps(oc), nested)
+        item = (mode, CHANNELS[ch], json.dumps(loaded), json.dumps(oc), nested) if mode in ("yaml", "omegaconf") else \
+               ("", CHANNELS[ch], json.dumps(loaded), json.dumps(oc), nested)
         if item not in seen:
             seen.add(item)
-            out.append((mode == "yaml", CHANNELS[ch], loaded, oc, nested))
+            out.append((mode, CHANNELS[ch], loaded, oc, nested))
     return out
 
 
@@ -701,14 +709,18 @@ def term(case, obs):
 
 
 def term_setting(case, obs):
-    obl = ["{| o_yaml := %s; o_chan := %s; o_loaded := %s; o_nested := %s; o_obs := %s |}"
-           % (g_bool(y), ch, "None" if ld is None else "(Some %s)" % g_lres(ld), g_bool(nd), g_obs(oc))
-           for y, ch, ld, oc, nd in observations(obs)]
+    has_oc = bool(obs.get("oracle_oc"))
+    obl = ["{| o_yaml := %s; o_oc := %s; o_chan := %s; o_loaded := %s; o_nested := %s; o_obs := %s |}"
+           % (g_bool(m == "yaml"), g_bool(m == "omegaconf" and has_oc), ch, "None" if ld is None else "(Some %s)" % g_lres(ld),
+              g_bool(nd), g_obs(oc))
+           for m, ch, ld, oc, nd in observations(obs)]
+    oracle_oc = [g_pair(g_str(s), g_lres(a)) for s, a in obs.get("oracle_oc", [])]
     items = g_list([g_pair(g_str(k), g_str(t)) for k, t in (case.get("items") or [])], "(str * str)")
     oracle = [g_pair(g_str(s), g_lres(a)) for s, a in obs["oracle"]]
-    return ("{| c_ty := %s; c_val := %s; c_text := %s; c_clash := %s; c_jsonnet := %s; c_items := %s; c_json_num := %d%%N; c_oracle := %s; c_obs := %s |}"
+    return ("{| c_ty := %s; c_val := %s; c_text := %s; c_clash := %s; c_jsonnet := %s; c_items := %s; c_json_num := %d%%N; c_oracle := %s; c_oracle_oc := %s; c_obs := %s |}"
             % (g_ty(case["ty"]), g_val(case["val"]), g_str(case["text"]), g_bool(obs["clash"]),
-               g_bool(any(n.startswith("jsonnet/") for n in obs["chan"])), items, json_num_class(case["text"]), g_list(oracle, "(str * lres)"), g_list(obl, "ob")))
+               g_bool(any(n.startswith("jsonnet/") for n in obs["chan"])), items, json_num_class(case["text"]), g_list(oracle, "(str * lres)"), g_list(oracle_oc, "(str * lres)"),
+               g_list(obl, "ob")))
 
 
 # ---------------------------------------------------------------------------------------------------------------------
